@@ -116,10 +116,15 @@ def gen_base(rng, want):
         sc.mods += ["--poly-a"]
     sc.adargs = [x for a in sc.ads1 + sc.ads2 for x in a["argv"]]
     sc.adargs += ["-e", rng.choice(["0.1", "0.2"]), "-O", str(rng.choice([3, 4])), "-n", str(sc.times)]
+    lower_case = False
     if sc.pair_adapters:
         sc.adargs += ["--pair-adapters"]
+        if rng.random() < want.get("pair_adapters_lowercase_p", 0.0):
+            # the reads keep their length; pairs without a match of one rank must come out exactly as they went in
+            sc.adargs += ["--action", "lowercase"]
+            lower_case = True
     feats = dict(maxlen=want.get("maxlen", 36), polya="--poly-a" in sc.mods, nruns=True, header=rng.choice(["plain", "casava", "casava", "comment"]),
-                 qual_profile=rng.choice(["high", "decay", "mixed", "q0", "twolevel", "mixed"]), alphabets=["ACGT", "ACGTN", "ACGTNn"], allow_errors=True)
+                 qual_profile=rng.choice(["high", "decay", "mixed", "q0", "twolevel", "mixed"]), alphabets=["ACGT", "ACGTN", "ACGTNn"], allow_errors=True, lower=lower_case)
     sc.recs1, sc.recs2 = G.gen_reads(rng, rng.randint(*want.get("nreads", (12, 40))), sc.paired, sc.ads1 or sc.ads2, sc.ads2 or sc.ads1, **feats)
     if not sc.paired:
         sc.recs2 = None
